@@ -49,7 +49,7 @@ func init() {
 					"op_AbsArcTo": 1000, "op_RelArcTo": 1000, "op_SetCReg": 10000, "op_SetNReg": 10000, "op_SetLOD": 1000, "op_AbsHLineTo": 1000, "op_RelVLineTo": 1000}},
 			{Name: "transcode", N: tier(120_000, 3_000_000), Run: c01Transcode,
 				Rule: "decoder-accepted streams (corpus files, mutated corpus files, hand-assembled streams with non-canonical forms) fed to an Encoder and decoded again, 4 hops, with a low-resolution and a high-resolution Encoder",
-				Min:  map[string]int64{"accepted_streams": 10000, "hops": 40000, "unterminated": 100, "fixed_point_checked": 1000, "one_encoder_for_all_hops": 5000}},
+				Min:  map[string]int64{"accepted_streams": 10000, "hops": 40000, "unterminated": 100, "fixed_point_checked": 1000, "one_encoder_for_all_hops": 5000, "hops_through_destination_logger": 5000}},
 		},
 	})
 }
@@ -448,6 +448,10 @@ func c01Transcode(c *run.Ctx, idx uint64) {
 				var dst ivg.Destination = e
 				if hires {
 					dst = hiResEnc{e}
+				}
+				if run.Hash64(run.HashBytes(s), uint64(hop))%8 == 3 {
+					dst = &ivg.DestinationLogger{Destination: dst, Alt: hop%2 == 0} // through the public logging wrapper
+					c.Count("hops_through_destination_logger", 1)
 				}
 				derr = decode.Decode(dst, prevBytes)
 				var bb []byte
